@@ -71,6 +71,26 @@ func GenTxOps(t *rapid.T, o TxGenOpts) []Op {
 	return ops
 }
 
+// GenOvertakenCommit draws a fragment in which a ReadUncommitted/ReadCommitted transaction writes 1-3
+// keys, somebody else then commits a newer value to one of them, and the transaction commits
+// (successfully: no conflict rule at these levels): the commit's versions must win, now and after any
+// reopen or crash, although they were written first.
+func GenOvertakenCommit(t *rapid.T) []Op {
+	ops := []Op{{K: "begin", Lvl: rapid.SampledFrom([]int{0, 1, 4}).Draw(t, "ocLvl")}}
+	nkeys := rapid.IntRange(1, 3).Draw(t, "ocKeys")
+	for k := 0; k < nkeys; k++ {
+		ops = append(ops, Op{K: "set", Last: true, Key: k, Len: rapid.IntRange(1, 30).Draw(t, "ocLen")})
+	}
+	for n := rapid.IntRange(1, 2).Draw(t, "ocOthers"); n > 0; n-- {
+		o := Op{K: "set", Key: rapid.IntRange(0, nkeys-1).Draw(t, "ocKey"), Len: rapid.IntRange(1, 30).Draw(t, "ocLen2")}
+		if rapid.IntRange(0, 3).Draw(t, "ocDel") == 0 {
+			o = Op{K: "del", Key: o.Key}
+		}
+		ops = append(ops, o)
+	}
+	return append(ops, Op{K: "commit", Last: true})
+}
+
 // GenConflictScenario draws a short scripted fragment in which a snapshot transaction writes keys
 // while others commit to some of them, then commits: the if-and-only-if of the conflict rule.
 func GenConflictScenario(t *rapid.T) []Op {
